@@ -257,8 +257,8 @@ fn build(cx: &Cx, e: &BodyExpr) -> (Incr<i64>, Hid) {
                 return build(cx, &BodyExpr::Const(*k));
             }
             let (mi, f) = &cx.cap.memos[*m % cx.cap.memos.len()];
-            let (n, hid, fresh) = memo_call(w, *mi, f, *k + l);
-            w.log(Ev::Act { ctx: w.cur_ctx(), act: Act::MemoCall { m: *mi, key: (*k + l).rem_euclid(3), hid, fresh } });
+            let (n, hid, fresh, prev_alive) = memo_call(w, *mi, f, *k + l);
+            w.log(Ev::Act { ctx: w.cur_ctx(), act: Act::MemoCall { m: *mi, key: (*k + l).rem_euclid(3), hid, fresh, prev_alive } });
             (n, hid)
         }
     }
